@@ -1,5 +1,319 @@
-(* C21 — The Frisky records path computes the same results as the dask graph (placeholder for the flattening model). *)
-From DA Require Import PyBase.
-Open Scope Z_scope.
-Example C21_placeholder : zsum [1;2;3] = 6. Proof. reflexivity. Qed.
-Print Assumptions C21_placeholder.
+(* C21 — "The Frisky records path computes the same results as the dask graph":
+   "For every array, the task records from `__frisky_graph__()` (and the plain records plus layer
+   chunks from `__frisky_records_chunks__()`) either are declined with NotImplementedError or form
+   a complete graph that defines every output key from `__frisky_output_keys__()` and computes
+   the same block values as `__dask_graph__()`.  Several collections walked with a shared `seen`
+   set together form a complete graph."
+
+   Statements only; the model is theories/Records.v (a small compiler: dask `_task_spec` nodes ->
+   flat Frisky records, `flatten` = GraphRecordsLayer.to_task_records / _records /
+   _Flattener.resolve; `walk`, `collect`, `collect_shared`, `check_complete` = collect.py), the
+   proofs are in theories/RecordsFacts.v.  harness/c21.py reifies every real layer (input graph and
+   real output records) and checks `flatten_opt input = output` inside Coq on every run, so the
+   theorems below speak about the translation the implementation performs.
+
+   Only the generic translation is in scope (the native Rust layers are absent in the sandbox).
+   Standing abstractions (see Records.v): a key is the string `str(_norm_key(key))`, numbered;
+   a lifted key "<parent>-subN" is the pair `KSub parent N` and is ASSUMED not to be the string of a
+   graph key; functions and literal leaves are opaque tags interpreted by `apply` / `vlit`;
+   `kle` is the oracle for Python's order of the key strings (all theorems hold for every `kle`). *)
+From Coq Require Import List Bool Arith PArith.
+From DA Require Import Graph GraphFacts Records RecordsFacts.
+Import ListNotations.
+
+(* ------------------------------------------------------------------------- *)
+(** 1. The declared deps of every emitted record are exactly the TaskRefs embedded in its
+       args/kwargs: they are `sorted(set(refs))`, duplicate free, and the same set — so an
+       executor that resolves every embedded ref never misses a dependency edge, and no edge is
+       spurious.  (`data_ok`: DataNode values embed no TaskRef; see the refutation below.) *)
+Theorem C21_flatten_deps_exact :
+  forall kle g r, data_ok g = true -> In r (flatten kle g) ->
+  r_deps r = sorted_deps kle (rec_refs r) /\
+  NoDup (r_deps r) /\ (forall x, In x (r_deps r) <-> In x (rec_refs r)).
+Proof. exact flatten_deps_exact. Qed.
+
+(* the hypothesis is necessary: `DataNode(value)` is handed over verbatim, with no dep edge, so a
+   TaskRef inside a DataNode value is embedded but not declared (replayed against the real
+   `_records`: see the report / harness corpus) *)
+Theorem C21_deps_exact_without_data_ok_refuted :
+  exists kle g r, In r (flatten kle g) /\ exists x, In x (rec_refs r) /\ ~ In x (r_deps r).
+Proof.
+  exists (fun _ _ => true), [(1%positive, NData (TList [TRef (KG 2%positive)]))].
+  eexists. split; [left; reflexivity|]. exists (KG 2%positive). split; [left; reflexivity | intros []].
+Qed.
+
+(* ------------------------------------------------------------------------- *)
+(** 2. Record keys are pairwise distinct: the lifted "<parent>-subN" keys among themselves and
+       from every graph key, given that the graph keys (strings) are distinct; every record key
+       is a graph key or a sub-key (N >= 1) of a graph key. *)
+Theorem C21_fresh_keys_unique :
+  forall kle g, NoDup (map fst g) ->
+  NoDup (map r_key (flatten kle g)) /\
+  (forall r, In r (flatten kle g) ->
+     (exists k, r_key r = KG k /\ In k (map fst g)) \/
+     (exists p i, r_key r = KSub p i /\ In p (map fst g) /\ 1 <= i)).
+Proof. exact flatten_keys_unique. Qed.
+
+(* ------------------------------------------------------------------------- *)
+(** 3. Compiler correctness.  For a translatable source graph with distinct keys that is closed
+       and acyclic (certificate form: it has a topological order `os`), executing the flattened
+       records in ANY topological order `ot` of their declared deps gives, for every source key,
+       the value the source graph computes (inline nodes evaluated recursively), and that value
+       exists (nothing is stuck).  V, the interpretation of functions / literals / containers are
+       arbitrary; the only law used is `identity(v) = v`. *)
+Theorem C21_flatten_sound :
+  forall (V : Type) (apply : tag -> list V -> list (tag * V) -> V) (vlit : tag -> V)
+         (vlist vtuple : list V -> V) (vdict : list (tag * V) -> V),
+  (forall v, apply ident_fn [v] [] = v) ->
+  forall kle g os ot,
+  NoDup (map fst g) -> supported g = true -> data_ok g = true ->
+  topological (src_graph g) os ->
+  rtopological (rec_graph (flatten kle g)) ot ->
+  forall k, In k (map fst g) ->
+    rec_run V apply vlit vlist vtuple vdict (flatten kle g) ot (KG k)
+    = src_run V apply vlit vlist vtuple vdict g os k /\
+    exists v, src_run V apply vlit vlist vtuple vdict g os k = Some v.
+Proof. exact flatten_sound. Qed.
+
+(* The same against DASK's OWN reading of raw Python containers.  In `src_run` above a raw list /
+   tuple / dict argument is looked into (a GraphNode inside is evaluated), which is how
+   `_Flattener.resolve` and Frisky read it; dask itself hands a raw container over verbatim, a
+   GraphNode or TaskRef inside stays an object (`vquote`: its value as data, arbitrary).  On
+   `raw_ok` graphs — raw containers hold only literals and raw containers — both readings agree,
+   so the records compute what dask computes.  harness/c21.py evaluates `raw_ok` inside Coq on every
+   real layer and reports a layer that takes the generic path and violates it. *)
+Theorem C21_flatten_sound_dask :
+  forall (V : Type) (apply : tag -> list V -> list (tag * V) -> V) (vlit : tag -> V)
+         (vlist vtuple : list V -> V) (vdict : list (tag * V) -> V) (vquote : arg -> V),
+  (forall v, apply ident_fn [v] [] = v) ->
+  forall kle g os ot,
+  NoDup (map fst g) -> supported g = true -> data_ok g = true -> raw_ok g = true ->
+  topological (src_graph g) os ->
+  rtopological (rec_graph (flatten kle g)) ot ->
+  forall k, In k (map fst g) ->
+    rec_run V apply vlit vlist vtuple vdict (flatten kle g) ot (KG k)
+    = src_run_dask V apply vlit vlist vtuple vdict vquote g os k /\
+    exists v, src_run_dask V apply vlit vlist vtuple vdict vquote g os k = Some v.
+Proof. exact flatten_sound_dask. Qed.
+
+(* such an order of the records always exists: the lifted sub-tasks of a key, in the order
+   `_Flattener` appended them, right before the key itself *)
+Theorem C21_records_order_exists :
+  forall kle g os, NoDup (map fst g) -> supported g = true -> topological (src_graph g) os ->
+  rtopological (rec_graph (flatten kle g)) (flat_order kle g os).
+Proof. exact flat_order_topological. Qed.
+
+(* and all of them compute the same store (every key, including the lifted ones) *)
+Theorem C21_records_confluent :
+  forall (V : Type) (apply : tag -> list V -> list (tag * V) -> V) (vlit : tag -> V)
+         (vlist vtuple : list V -> V) (vdict : list (tag * V) -> V) kle g o1 o2,
+  NoDup (map fst g) -> data_ok g = true ->
+  rtopological (rec_graph (flatten kle g)) o1 -> rtopological (rec_graph (flatten kle g)) o2 ->
+  forall x, rec_run V apply vlit vlist vtuple vdict (flatten kle g) o1 x
+          = rec_run V apply vlit vlist vtuple vdict (flatten kle g) o2 x.
+Proof. exact rec_run_confluent. Qed.
+
+(* ------------------------------------------------------------------------- *)
+(** 4. Completeness (`_check_complete`).  For a translatable graph without self-aliases the
+       dangling deps of the records are exactly the source references to undefined keys; hence
+       the check passes iff the source graph is closed; and every source key is produced. *)
+Theorem C21_complete :
+  forall kle g, no_self_alias g -> supported g = true ->
+  (check_complete (flatten kle g) = true <-> closed (src_graph g)) /\
+  (forall x, In x (dangling (flatten kle g)) <->
+             exists d, x = KG d /\ (exists k, edge (src_graph g) k d) /\ ~ defined (src_graph g) d) /\
+  (forall k, defined (src_graph g) k -> In (KG k) (produced (flatten kle g))).
+Proof.
+  intros kle g Hs Hsup. split; [apply check_complete_closed; assumption|].
+  split; [apply dangling_spec; assumption | intros k; apply flatten_defines; assumption].
+Qed.
+
+(* a self-alias emits no record (the scheduler is supposed to hold the data): a closed source
+   graph with a referenced self-alias is therefore reported incomplete — the hypothesis of
+   C21_complete is necessary, and by design such a graph is declined *)
+Theorem C21_complete_self_alias_refuted :
+  exists kle g, closed (src_graph g) /\ supported g = true /\ check_complete (flatten kle g) = false.
+Proof.
+  exists (fun _ _ => true), [(1%positive, NAlias 1%positive); (2%positive, NAlias 1%positive)].
+  split; [apply closed_b_spec; reflexivity | split; reflexivity].
+Qed.
+
+(* ------------------------------------------------------------------------- *)
+(** 5. The walk.  `_walk_records` never runs out of fuel in the model; one collection with a
+       fresh `seen` emits every reachable layer exactly once and returns the translation of the
+       combined graph iff every layer is translatable and the result is complete (otherwise it
+       declines); several collections with ONE shared `seen` emit each layer reachable from some
+       root exactly once, the union of their records is the translation of the combined source
+       graph, equal as a set to what one walk over all roots yields, and it is complete exactly
+       when the combined source graph is closed. *)
+Theorem C21_walk_total : forall d roots seen, exists r, walk d roots seen = Some r.
+Proof. exact walk_total. Qed.
+
+Theorem C21_collect_single :
+  forall kle d root,
+  exists seen' em,
+    walk d [root] [] = Some (seen', em) /\
+    NoDup em /\ (forall nm, In nm em <-> reach d [root] nm) /\
+    collect kle d root None =
+    (if supported (combined d em) && check_complete (flatten kle (combined d em))
+     then Some (seen', flatten kle (combined d em)) else None).
+Proof. exact collect_single_spec. Qed.
+
+Theorem C21_shared_seen :
+  forall kle d roots seen' rs,
+  collect_shared kle d roots [] = Some (seen', rs) ->
+  exists em,
+    NoDup em /\ (forall nm, In nm em <-> reach d roots nm) /\
+    rs = flatten kle (combined d em) /\ supported (combined d em) = true /\
+    (forall seen1 em1, walk d roots [] = Some (seen1, em1) ->
+       forall r, In r rs <-> In r (flatten kle (combined d em1))) /\
+    (no_self_alias (combined d em) ->
+       (check_complete rs = true <-> closed (src_graph (combined d em)))).
+Proof. exact collect_shared_spec. Qed.
+
+(* the shared walk declines only when a reachable layer is not translatable *)
+Theorem C21_shared_seen_total :
+  forall kle d roots seen,
+  (forall nm, reach d roots nm -> supported (graph_of d nm) = true) ->
+  exists res, collect_shared kle d roots seen = Some res.
+Proof. exact collect_shared_total. Qed.
+
+(* ------------------------------------------------------------------------- *)
+(** Examples: the hypotheses are satisfiable on a non-trivial graph, and the statements compute. *)
+Open Scope positive_scope.
+
+(* concatenate3([[getitem(a0, ..), a1]]) with a nested inline task, a kwarg, a raw dict holding an
+   inline task, an alias, a DataNode and a container node *)
+Definition ex_g : sgraph :=
+  [ (1, NData (TLit 9));
+    (2, NAlias 1);
+    (3, NTask 5 [ASeq ContList [ASeq ContList [ATask 6 [ARef 2; ATask 7 [AAlias 1] [(9, ALit 4)]] []; ARef 2]];
+                 ADict [(8, ATask 6 [AData (TTuple [TLit 3; TLit 4])] [])]]
+              [(10, ASeq RawTuple [ALit 2; ARef 1])]);
+    (4, NCont false [ARef 3; ATask 7 [ARef 3] []]) ].
+Definition ex_kle (a b : rkey) : bool :=
+  match a, b with
+  | KG k, KG l => Pos.leb k l
+  | KG _, KSub _ _ => true
+  | KSub _ _, KG _ => false
+  | KSub p n, KSub q m => if Pos.eqb p q then Nat.leb n m else Pos.leb p q
+  end.
+Definition ex_os : list key := [1; 2; 3; 4].
+
+Example C21_ex_hyps :
+  NoDup (map fst ex_g) /\ supported ex_g = true /\ data_ok ex_g = true /\ no_self_alias ex_g /\
+  topological (src_graph ex_g) ex_os.
+Proof.
+  split; [apply nodup_b_NoDup; reflexivity|]. split; [reflexivity|]. split; [reflexivity|].
+  split; [apply no_self_alias_b_spec; reflexivity | apply topo_check_topological; reflexivity].
+Qed.
+
+Example C21_ex_flatten :
+  map r_key (flatten ex_kle ex_g) =
+    [KG 1; KG 2; KG 3; KSub 3 2; KSub 3 1; KSub 3 3; KG 4; KSub 4 1] /\
+  flat_order ex_kle ex_g ex_os = [KG 1; KG 2; KSub 3 2; KSub 3 1; KSub 3 3; KG 3; KSub 4 1; KG 4] /\
+  map r_deps (flatten ex_kle ex_g) =
+    [[]; [KG 1]; [KG 1; KG 2; KSub 3 1; KSub 3 3]; [KG 1]; [KG 2; KSub 3 2]; []; [KG 3; KSub 4 1]; [KG 3]] /\
+  check_complete (flatten ex_kle ex_g) = true.
+Proof. vm_compute. repeat split; reflexivity. Qed.
+
+(* a concrete interpretation: values are trees that record exactly what was applied to what *)
+Inductive exV := XLit (t : tag) | XList (l : list exV) | XTuple (l : list exV)
+               | XDict (l : list (tag * exV)) | XApp (f : tag) (a : list exV) (k : list (tag * exV)).
+Definition ex_apply (f : tag) (a : list exV) (k : list (tag * exV)) : exV :=
+  match Pos.eqb f ident_fn, a, k with true, [v], [] => v | _, _, _ => XApp f a k end.
+Lemma ex_apply_ident : forall v, ex_apply ident_fn [v] [] = v.
+Proof. reflexivity. Qed.
+
+(* records path (two different topological orders) = source graph, on every key, by computation *)
+Example C21_ex_run :
+  let run := rec_run exV ex_apply XLit XList XTuple XDict (flatten ex_kle ex_g) in
+  let src := src_run exV ex_apply XLit XList XTuple XDict ex_g ex_os in
+  forallb (fun k => match run (flat_order ex_kle ex_g ex_os) (KG k), src k with
+                    | Some a, Some b => true | _, _ => false end) ex_os = true /\
+  map (fun k => run (flat_order ex_kle ex_g ex_os) (KG k)) ex_os = map src ex_os /\
+  map (fun k => run [KG 1; KSub 3 3; KG 2; KSub 3 2; KSub 3 1; KG 3; KSub 4 1; KG 4] (KG k)) ex_os = map src ex_os.
+Proof. vm_compute. repeat split; reflexivity. Qed.
+
+(* ... and by the theorem *)
+Example C21_ex_sound :
+  forall k, In k ex_os ->
+    rec_run exV ex_apply XLit XList XTuple XDict (flatten ex_kle ex_g) (flat_order ex_kle ex_g ex_os) (KG k)
+    = src_run exV ex_apply XLit XList XTuple XDict ex_g ex_os k.
+Proof.
+  destruct C21_ex_hyps as (H1 & H2 & H3 & _ & H5). intros k Hk.
+  apply (C21_flatten_sound exV ex_apply XLit XList XTuple XDict ex_apply_ident ex_kle ex_g ex_os
+           (flat_order ex_kle ex_g ex_os) H1 H2 H3 H5 (C21_records_order_exists ex_kle ex_g ex_os H1 H2 H5) k Hk).
+Qed.
+
+(* `raw_ok` is necessary: a Task inside a RAW dict (this is the shape of FusedBlockwise's
+   `_execute_subgraph({key: Task(...)}, ...)`) is lifted and executed by the records path, whereas
+   dask passes the Task object as data.  (The implementation knows: "The generic GraphRecordsLayer
+   adapter mistranslates this", _frisky/fused_blockwise.py; FusedBlockwise has a native layer.) *)
+Theorem C21_sound_without_raw_ok_refuted :
+  exists (vquote : arg -> exV) g os ot k,
+    NoDup (map fst g) /\ supported g = true /\ data_ok g = true /\
+    topological (src_graph g) os /\ rtopological (rec_graph (flatten ex_kle g)) ot /\ In k (map fst g) /\
+    rec_run exV ex_apply XLit XList XTuple XDict (flatten ex_kle g) ot (KG k)
+    <> src_run_dask exV ex_apply XLit XList XTuple XDict vquote g os k.
+Proof.
+  exists (fun _ => XLit 99), [(1, NTask 5 [ADict [(8, ATask 6 [] [])]] [])], [1].
+  exists (flat_order ex_kle [(1, NTask 5 [ADict [(8, ATask 6 [] [])]] [])] [1]), 1.
+  assert (T : topological (src_graph [(1, NTask 5 [ADict [(8, ATask 6 [] [])]] [])]) [1])
+    by (apply topo_check_topological; reflexivity).
+  assert (N : NoDup (map fst [(1, NTask 5 [ADict [(8, ATask 6 [] [])]] [])]))
+    by (apply nodup_b_NoDup; reflexivity).
+  split; [exact N|]. split; [reflexivity|]. split; [reflexivity|]. split; [exact T|].
+  split; [apply C21_records_order_exists; [exact N | reflexivity | exact T]|].
+  split; [left; reflexivity|]. vm_compute. discriminate.
+Qed.
+
+(* a dangling source reference is reported, and only it *)
+Example C21_ex_dangling :
+  dangling (flatten ex_kle [(1, NTask 5 [ARef 7; ATask 6 [ARef 8; ARef 1] []] [])]) = [KG 7; KG 8].
+Proof. reflexivity. Qed.
+
+(* three expression nodes 1 -> {2, 3} -> 4 (a diamond) and a second root 5 -> 3: the shared walk
+   emits 4 once; the union equals one walk over both roots as a set *)
+Definition ex_dag : dag :=
+  [ mklnode 1 [(11, NTask 5 [ARef 12; ARef 13] [])] [2; 3];
+    mklnode 2 [(12, NTask 6 [ARef 14] [])] [4];
+    mklnode 3 [(13, NTask 6 [ATask 7 [ARef 14] []] [])] [4];
+    mklnode 4 [(14, NData (TLit 2))] [];
+    mklnode 5 [(15, NTask 5 [ARef 13] [])] [3] ].
+
+Example C21_ex_walk :
+  walk ex_dag [1] [] = Some ([2; 4; 3; 1], [1; 3; 4; 2]) /\
+  walk_shared ex_dag [1; 5] [] = Some ([5; 2; 4; 3; 1], [1; 3; 4; 2; 5]) /\
+  walk ex_dag [1; 5] [] = Some ([2; 1; 4; 3; 5], [5; 3; 4; 1; 2]).
+Proof. vm_compute. repeat split; reflexivity. Qed.
+
+Example C21_ex_collect :
+  (exists rs, collect ex_kle ex_dag 1 None = Some ([2; 4; 3; 1], rs) /\ length rs = 5%nat) /\
+  (* alone, with a shared set, the second collection contributes only its own layer ... *)
+  (exists s rs, collect_shared ex_kle ex_dag [1; 5] [] = Some (s, rs) /\ length rs = 6%nat /\ check_complete rs = true) /\
+  (* ... whose records are not complete by themselves *)
+  (exists s rs, collect ex_kle ex_dag 5 (Some [2; 4; 3; 1]) = Some (s, rs) /\ check_complete rs = false) /\
+  (* a layer that dangles is declined *)
+  collect ex_kle [mklnode 1 [(11, NTask 5 [ARef 12] [])] []] 1 None = None.
+Proof.
+  split; [eexists; split; [vm_compute; reflexivity | reflexivity]|].
+  split; [do 2 eexists; split; [vm_compute; reflexivity | split; reflexivity]|].
+  split; [do 2 eexists; split; [vm_compute; reflexivity | reflexivity] | reflexivity].
+Qed.
+
+Print Assumptions C21_flatten_deps_exact.
+Print Assumptions C21_deps_exact_without_data_ok_refuted.
+Print Assumptions C21_fresh_keys_unique.
+Print Assumptions C21_flatten_sound.
+Print Assumptions C21_flatten_sound_dask.
+Print Assumptions C21_sound_without_raw_ok_refuted.
+Print Assumptions C21_records_order_exists.
+Print Assumptions C21_records_confluent.
+Print Assumptions C21_complete.
+Print Assumptions C21_complete_self_alias_refuted.
+Print Assumptions C21_walk_total.
+Print Assumptions C21_collect_single.
+Print Assumptions C21_shared_seen.
+Print Assumptions C21_shared_seen_total.
+Print Assumptions C21_ex_sound.
